@@ -8,6 +8,7 @@ ToDAOState), converted with to_dao and back with from_dao; oracle = identity-awa
 from __future__ import annotations
 
 from mc.core import CaseResult, Failure, HarnessError
+from mc import idadv
 from checks import ormgen, ormgraphs
 from oracles import iso
 
@@ -28,6 +29,7 @@ RECYCLE_CHUNKS = 20
 BUDGET_S = {"quick": 900, "thorough": 6000}
 
 _ORM = [None]
+_ADV = [None]  # the identity adversary of the conversion that is running (mc/idadv.py), or None
 
 
 def init_worker():
@@ -36,6 +38,12 @@ def init_worker():
     text = ormgen.generate_orm_source(M.CLASSES, alternative_mappings=M.ALTERNATIVE_MAPPINGS, type_mappings=M.TYPE_MAPPINGS)
     _ORM[0] = ormgen.load_orm(text, prefix="vorm04")
     configure_mappers()
+    from sqlalchemy import event
+
+    def on_init(target, args, kwargs):
+        if _ADV[0] is not None:
+            _ADV[0].born(target)
+    event.listen(_ORM[0].Base, "init", on_init, propagate=True)
 
 
 def cases(tier, seed):
@@ -54,10 +62,34 @@ def has_sharing_or_cycle(spec):
 
 
 def run_case(spec):
-    from krrood.ormatic.dao import to_dao, ToDAOState, FromDAOState
     res = CaseResult(evaluations=0)
     label = ormgraphs.show(spec)
     objs = ormgraphs.build(spec)
+    # environment answers for "which identity does a new object get": the interpreter's own, and the adversary that
+    # hands the identity of a dead object to the next object born (mc/idadv.py)
+    for ids in ("interpreter", "recycled"):
+        if ids == "interpreter":
+            _convert_all(spec, label, objs, res, "")
+        else:
+            _ADV[0] = idadv.IdAdversary(recycle=True)
+            try:
+                with idadv.installed(_ADV[0]):
+                    _convert_all(spec, label, objs, res, " [identities of dead objects are reused at once]")
+                if _ADV[0].recycled:
+                    res.features = set(res.features) | {"identity-recycled"}
+            finally:
+                _ADV[0] = None
+    if has_sharing_or_cycle(spec):
+        res.nontrivial_key = spec
+    res.outcome_key = (len(res.failures),)
+    res.features = set(res.features) | {n[1] for n in spec}
+    if not res.failures and has_sharing_or_cycle(spec):
+        res.sample = {"graph": label, "roots": list(objs)}
+    return res
+
+
+def _convert_all(spec, label, objs, res, note):
+    from krrood.ormatic.dao import to_dao, ToDAOState, FromDAOState
     for root_name, root in objs.items():
         res.evaluations += 1
         try:
@@ -65,19 +97,20 @@ def run_case(spec):
             d = to_dao(root, state)
             back = d.from_dao(FromDAOState())
         except Exception as e:
-            res.failures.append(Failure("crash", f"{label}; root {root_name}: {type(e).__name__}: {str(e)[:200]}",
+            res.failures.append(Failure("crash", f"{label}; root {root_name}{note}: {type(e).__name__}: {str(e)[:200]}",
                                         case=(spec, root_name)))
             continue
         diff = iso.compare(root, back)
         if diff:
-            res.failures.append(Failure("not-isomorphic", f"{label}; converted from {root_name}: {diff}", case=(spec, root_name)))
+            res.failures.append(Failure("not-isomorphic", f"{label}; converted from {root_name}{note}: {diff}", case=(spec, root_name)))
         n_objs = iso.count_objects(root)
         n_money = sum(1 for _ in _moneys(root))
         # a polyline's mapping builds one mapped point per coordinate pair while converting
         n_points = sum(len(o.coords) for o in _reachable(root) if type(o).__name__ == "OPoly")
         if len(state.memo) != n_objs - n_money + n_points:
-            res.failures.append(Failure("dao-count", f"{label}; root {root_name}: {len(state.memo)} DAOs for "
+            res.failures.append(Failure("dao-count", f"{label}; root {root_name}{note}: {len(state.memo)} DAOs for "
                                                      f"{n_objs - n_money + n_points} distinct mapped objects", case=(spec, root_name)))
+        del d, back, state
     # all nodes with one shared state
     try:
         state = ToDAOState()
@@ -87,16 +120,9 @@ def run_case(spec):
         diff = iso.compare(list(objs.values()), backs)
         res.evaluations += 1
         if diff:
-            res.failures.append(Failure("not-isomorphic", f"{label}; all nodes with one shared state: {diff}", case=(spec, "<all>")))
+            res.failures.append(Failure("not-isomorphic", f"{label}; all nodes with one shared state{note}: {diff}", case=(spec, "<all>")))
     except Exception as e:
-        res.failures.append(Failure("crash", f"{label}; shared state: {type(e).__name__}: {str(e)[:200]}", case=(spec, "<all>")))
-    if has_sharing_or_cycle(spec):
-        res.nontrivial_key = spec
-    res.outcome_key = (len(res.failures),)
-    res.features = {n[1] for n in spec}
-    if not res.failures and has_sharing_or_cycle(spec):
-        res.sample = {"graph": label, "roots": list(objs)}
-    return res
+        res.failures.append(Failure("crash", f"{label}; shared state{note}: {type(e).__name__}: {str(e)[:200]}", case=(spec, "<all>")))
 
 
 def _reachable(root):
@@ -153,16 +179,9 @@ def cluster_key(case, f):
 
 def finish(run):
     if run.exhaustive and not run.failures:
-        for k in ("OVec", "OAltChild", "OSubHolder", "OCarrier"):
+        for k in ("OVec", "OAltChild", "OSubHolder", "OCarrier", "OTeam", "OAltGroup", "identity-recycled"):
             if not run.features.get(k):
                 raise HarnessError("vacuous: " + k)
-
-
-def case_from_json(j):
-    def tup(x):
-        return tuple(tup(i) for i in x) if isinstance(x, list) else x
-    c = tup(j)
-    return c[0] if len(c) == 2 and isinstance(c[1], (str, type(None))) and isinstance(c[0], tuple) and c[0] and isinstance(c[0][0], tuple) and len(c[0][0]) == 3 and isinstance(c[0][0][2], tuple) and False else c
 
 
 def repro(case):
@@ -180,7 +199,7 @@ def _m_no_register():
         # registration is skipped for collection members reached a second time
         if type(obj).__name__ == "OSubItem":
             return
-        oid = id(obj)
+        oid = D.__dict__.get("id", id)(obj)
         self.memo[oid] = result
         self.keep_alive[oid] = obj
     D.ToDAOState.register = register
@@ -189,14 +208,14 @@ def _m_no_register():
 def _m_memo_by_equality():
     from krrood.ormatic import dao as D
     def key(dao_obj):
-        return (type(dao_obj).__name__, repr(dao_obj)[:200]) if type(dao_obj).__name__.startswith("OItem") else id(dao_obj)
+        return (type(dao_obj).__name__, repr(dao_obj)[:200]) if type(dao_obj).__name__.startswith("OItem") else D.__dict__.get("id", id)(dao_obj)
     D.FromDAOState.has = lambda self, d: key(d) in self.memo
     D.FromDAOState.get = lambda self, d: self.memo[key(d)]
     def allocate_and_memoize(self, dao_obj, original_cls):
         result = original_cls.__new__(original_cls)
         self.memo[key(dao_obj)] = result
-        self.memo[id(dao_obj)] = result
-        self.in_progress[id(dao_obj)] = True
+        self.memo[D.__dict__.get("id", id)(dao_obj)] = result
+        self.in_progress[D.__dict__.get("id", id)(dao_obj)] = True
         return result
     D.FromDAOState.allocate_and_memoize = allocate_and_memoize
 
@@ -220,7 +239,21 @@ def _m_collection_as_set():
     D.DataAccessObject._extract_collection_relationship = patched
 
 
-MUTANTS = {"no_register": _m_no_register, "memo_by_equality": _m_memo_by_equality, "no_pending_fixes": _m_no_pending_fixes,
+def _m_temp_parent_dao_freed():
+    # the temporary DAO that rebuilds an alternatively mapped parent's part is not kept alive by the state
+    from krrood.ormatic import dao as D
+
+    class Forgetful(list):
+        def append(self, x):
+            pass
+    orig = D.FromDAOState.__init__
+    def init(self, *a, **k):
+        orig(self, *a, **k)
+        self.temporary_daos = Forgetful()
+    D.FromDAOState.__init__ = init
+
+
+MUTANTS = {"temp_parent_dao_freed": _m_temp_parent_dao_freed, "no_register": _m_no_register, "memo_by_equality": _m_memo_by_equality, "no_pending_fixes": _m_no_pending_fixes,
            "collection_as_set": _m_collection_as_set}
 
 
